@@ -4,7 +4,10 @@ use crate::io_loop::{Channel0Handle, IoLoop};
 use crate::{Channel, FieldTable, IoStream, Sasl};
 use crossbeam_channel::Receiver;
 use log::debug;
+#[cfg(not(amiquip_verif))]
 use std::thread::JoinHandle;
+#[cfg(amiquip_verif)]
+use amiquip_simrt::thread::JoinHandle;
 
 #[cfg(feature = "native-tls")]
 use crate::TlsConnector;
